@@ -241,7 +241,9 @@ pub fn gen_case(seed: u64, k: u64, tier: Tier) -> Case {
     }
   }
   // fault locality: modules not depending on a faulted specifier are loaded exactly as without the fault
-  if !faulted.is_empty() && direct.is_empty() {
+  // (worlds where a module is answered under another final specifier are left out: which answer ends
+  // up as "the entry of X" then depends on the order of the loads, which removing a fault changes)
+  if !faulted.is_empty() && direct.is_empty() && c.world.final_specifiers.is_empty() {
     let mut clean = c.world.clone();
     // the fault-free world: every faulted specifier answers with a plain empty module
     for f in &faulted {
